@@ -712,7 +712,12 @@ pub fn body_handbuilt(ch: &Chooser, fmts: &[HFmt]) -> Outcome {
                 b = b.set_unplaced_unmapped_record_count(n);
             }
             let ix = b.build();
-            judge(ch, "bai", "handbuilt", &describe, &ix, bai_rt(&ix), &regs)
+            judge(ch, "bai", "handbuilt", &describe, &ix, bai_rt(&ix), &regs)?;
+            // the async BAI writer has its own encoder (bins, metadata pseudo-bin, linear index): same file
+            // contents for every hand-built index, read back by the blocking and the async reader
+            cross_async(ch, "bai", &describe, &ix, bai_rt(&ix).map(|x| x.1), bai_async_write(&ix), |b| bai::io::Reader::new(b).read_index(), |b| {
+                block_on(async { bai::r#async::io::Reader::new(b).read_index().await })
+            })
         }
         HFmt::Tabix => {
             let mut b = tabix::Index::builder().set_reference_sequences(lin_refs).set_header(header.clone().unwrap());
@@ -746,6 +751,15 @@ pub fn body_handbuilt(ch: &Chooser, fmts: &[HFmt]) -> Outcome {
             Ok(())
         }
     }
+}
+
+pub fn bai_async_write(ix: &bai::Index) -> io::Result<Vec<u8>> {
+    block_on(async {
+        let mut w = bai::r#async::io::Writer::new(Vec::new());
+        w.write_index(ix).await?;
+        w.shutdown().await?;
+        Ok(w.into_inner())
+    })
 }
 
 pub fn tabix_async_write(ix: &tabix::Index) -> io::Result<Vec<u8>> {
